@@ -5,7 +5,7 @@ From Coq Require Import ZArith List Bool Reals Lia Lra.
 From FT.lib Require Import Num Arr ArrLemmas Lower NumArr.
 From FT.gen Require Import Common Interp2d Interp3d Vinterp2d Vinterp3d FteikCommon Fteik2d Fteik3d Ray2d Ray3d.
 From FT.proofs Require Import SSR InterpR Interp3R Sweep2dProofs OperatorsR.
-From FT.proofs Require Operators3R InitSym.
+From FT.proofs Require Operators3R InitSym NonNeg3d Sym3d.
 Import ListNotations.
 Open Scope R_scope.
 
@@ -256,6 +256,113 @@ Theorem C18_init_mirrored_offsets :
        nsub (nofZ 1) (nabs (nsub xsa' (nofZ xsi'))) = nabs (nsub xsa (nofZ xsi)).
 Proof. exact @InitSym.mirrored_dxw_is_dxe. Qed.
 
+(* 3D: the guarded 8-point operator under Z<->X (neighbour times, inverse squared spacings and their pairwise products permuted alike) *)
+Theorem C18_eight_point_swap_zx :
+  forall tv te tn tev ten tnv tnve vref dz2i dx2i dy2i dzxi dzyi dxyi dsum : R,
+       Sym3d.O3.op3 te tv tn tev tnv ten tnve vref dx2i dz2i dy2i dzxi dxyi dzyi dsum =
+       Sym3d.O3.op3 tv te tn tev ten tnv tnve vref dz2i dx2i dy2i dzxi dzyi dxyi dsum.
+Proof. exact @Sym3d.O3_op3_swap_zx. Qed.
+
+(* under X<->Y (the two transpositions generate all six relabellings) *)
+Theorem C18_eight_point_swap_xy :
+  forall tv te tn tev ten tnv tnve vref dz2i dx2i dy2i dzxi dzyi dxyi dsum : R,
+       Sym3d.O3.op3 tv tn te tnv ten tev tnve vref dz2i dy2i dx2i dzyi dzxi dxyi dsum =
+       Sym3d.O3.op3 tv te tn tev ten tnv tnve vref dz2i dx2i dy2i dzxi dzyi dxyi dsum.
+Proof. exact @Sym3d.O3_op3_swap_xy. Qed.
+
+(* the value written by one 3D node update on the Z<->X-transposed problem (times, cells, spacings, direction signs, sizes exchanged) equals the value on the original problem: 1D operators with their four adjoining cells, plane operators with their two, clamps of the right axis, 8-point operator *)
+Theorem C18_node_update_3d_relabel_zx :
+  forall (guarded : bool) (tt tt' slow slow' : arr R) (nz nx ny : Z)
+         (dz dx dy dz2i dx2i dy2i dzxi dzyi dxyi dsum : R) (i j k sgnvz sgnvx sgnvy sgntz sgntx sgnty : Z),
+       Sym3d.transp_zx nz nx ny tt tt' ->
+       Sym3d.transp_zx (nz - 1) (nx - 1) (ny - 1) slow slow' ->
+       Sym3d.axis_ok nz i sgnvz sgntz ->
+       Sym3d.axis_ok nx j sgnvx sgntx ->
+       Sym3d.axis_ok ny k sgnvy sgnty ->
+       NonNeg3d.node_value guarded tt' slow' dx dz dy dx2i dz2i dy2i dzxi dxyi dzyi dsum j i k sgnvx sgnvz sgnvy sgntx
+         sgntz sgnty nx nz ny =
+       NonNeg3d.node_value guarded tt slow dz dx dy dz2i dx2i dy2i dzxi dzyi dxyi dsum i j k sgnvz sgnvx sgnvy sgntz
+         sgntx sgnty nz nx ny.
+Proof. exact @Sym3d.node_value_zx. Qed.
+
+(* X<->Y *)
+Theorem C18_node_update_3d_relabel_xy :
+  forall (guarded : bool) (tt tt' slow slow' : arr R) (nz nx ny : Z)
+         (dz dx dy dz2i dx2i dy2i dzxi dzyi dxyi dsum : R) (i j k sgnvz sgnvx sgnvy sgntz sgntx sgnty : Z),
+       Sym3d.transp_xy nz nx ny tt tt' ->
+       Sym3d.transp_xy (nz - 1) (nx - 1) (ny - 1) slow slow' ->
+       Sym3d.axis_ok nz i sgnvz sgntz ->
+       Sym3d.axis_ok nx j sgnvx sgntx ->
+       Sym3d.axis_ok ny k sgnvy sgnty ->
+       NonNeg3d.node_value guarded tt' slow' dz dy dx dz2i dy2i dx2i dzyi dzxi dxyi dsum i k j sgnvz sgnvy sgnvx sgntz
+         sgnty sgntx nz ny nx =
+       NonNeg3d.node_value guarded tt slow dz dx dy dz2i dx2i dy2i dzxi dzyi dxyi dsum i j k sgnvz sgnvx sgnvy sgntz
+         sgntx sgnty nz nx ny.
+Proof. exact @Sym3d.node_value_xy. Qed.
+
+(* the 3-cycle *)
+Theorem C18_node_update_3d_relabel_cycle :
+  forall (guarded : bool) (tt tt' slow slow' : arr R) (nz nx ny : Z)
+         (dz dx dy dz2i dx2i dy2i dzxi dzyi dxyi dsum : R) (i j k sgnvz sgnvx sgnvy sgntz sgntx sgnty : Z),
+       Sym3d.transp_cyc nz nx ny tt tt' ->
+       Sym3d.transp_cyc (nz - 1) (nx - 1) (ny - 1) slow slow' ->
+       Sym3d.axis_ok nz i sgnvz sgntz ->
+       Sym3d.axis_ok nx j sgnvx sgntx ->
+       Sym3d.axis_ok ny k sgnvy sgnty ->
+       NonNeg3d.node_value guarded tt' slow' dx dy dz dx2i dy2i dz2i dxyi dzxi dzyi dsum j k i sgnvx sgnvy sgnvz sgntx
+         sgnty sgntz nx ny nz =
+       NonNeg3d.node_value guarded tt slow dz dx dy dz2i dx2i dy2i dzxi dzyi dxyi dsum i j k sgnvz sgnvx sgnvy sgntz
+         sgntx sgnty nz nx ny.
+Proof. exact @Sym3d.node_value_cyc. Qed.
+
+(* tie to the generated code: the array written by Fteik3d.sweep on the transposed problem is the transpose of the array written on the original problem *)
+Theorem C18_sweep_3d_transpose_zx :
+  forall (tt tt' : arr R) (ttsgn ttsgn' : arr Z) (slow slow' : arr R) (dz dx dy : R)
+         (i j k sgnvz sgnvx sgnvy sgntz sgntx sgnty nz nx ny : Z) (grad grad' : bool),
+       wf tt ->
+       wf tt' ->
+       Sym3d.transp_zx nz nx ny tt tt' ->
+       Sym3d.transp_zx (nz - 1) (nx - 1) (ny - 1) slow slow' ->
+       Sym3d.axis_ok nz i sgnvz sgntz ->
+       Sym3d.axis_ok nx j sgnvx sgntx ->
+       Sym3d.axis_ok ny k sgnvy sgnty ->
+       Sym3d.transp_zx nz nx ny
+         (fst
+            (sweep tt ttsgn slow (SweepDargs.dargs3 dz dx dy) i j k sgnvz sgnvx sgnvy sgntz sgntx sgnty nz nx ny grad))
+         (fst
+            (sweep tt' ttsgn' slow' (SweepDargs.dargs3 dx dz dy) j i k sgnvx sgnvz sgnvy sgntx sgntz sgnty nx nz ny
+               grad')).
+Proof. exact @Sym3d.sweep_transpose_zx_dargs3. Qed.
+
+(* X<->Y *)
+Theorem C18_sweep_3d_transpose_xy :
+  forall (tt tt' : arr R) (ttsgn ttsgn' : arr Z) (slow slow' : arr R) (dz dx dy : R)
+         (i j k sgnvz sgnvx sgnvy sgntz sgntx sgnty nz nx ny : Z) (grad grad' : bool),
+       wf tt ->
+       wf tt' ->
+       Sym3d.transp_xy nz nx ny tt tt' ->
+       Sym3d.transp_xy (nz - 1) (nx - 1) (ny - 1) slow slow' ->
+       Sym3d.axis_ok nz i sgnvz sgntz ->
+       Sym3d.axis_ok nx j sgnvx sgntx ->
+       Sym3d.axis_ok ny k sgnvy sgnty ->
+       Sym3d.transp_xy nz nx ny
+         (fst
+            (sweep tt ttsgn slow (SweepDargs.dargs3 dz dx dy) i j k sgnvz sgnvx sgnvy sgntz sgntx sgnty nz nx ny grad))
+         (fst
+            (sweep tt' ttsgn' slow' (SweepDargs.dargs3 dz dy dx) i k j sgnvz sgnvy sgnvx sgntz sgnty sgntx nz ny nx
+               grad')).
+Proof. exact @Sym3d.sweep_transpose_xy_dargs3. Qed.
+
+(* sensitivity: with min(k, nx-2) in place of min(k, ny-2) the law fails on an admissible node *)
+Theorem C18_wrong_axis_clamp_refuted :
+  Sym3d.transp_xy (2 - 1) (2 - 1) (3 - 1) Sym3d.mut_slow Sym3d.mut_slow' /\
+       Sym3d.axis_ok 2 1 1 1 /\
+       Sym3d.axis_ok 2 1 1 1 /\
+       Sym3d.axis_ok 3 1 1 1 /\
+       NonNeg3d.edge_s_z Sym3d.mut_slow' 1 1 1 1 3 2 = NonNeg3d.edge_s_z Sym3d.mut_slow 1 1 1 1 2 3 /\
+       Sym3d.edge_s_z_mut Sym3d.mut_slow' 1 1 1 1 3 2 <> Sym3d.edge_s_z_mut Sym3d.mut_slow 1 1 1 1 2 3.
+Proof. exact @Sym3d.clamp_mutant_refuted. Qed.
+
 Print Assumptions C18_t_ana_swap.
 Print Assumptions C18_delta_swap.
 Print Assumptions C18_four_point_swap.
@@ -274,3 +381,11 @@ Print Assumptions C18_init_down_is_transpose_of_east.
 Print Assumptions C18_init_up_is_transpose_of_west.
 Print Assumptions C18_init_up_is_mirror_of_down.
 Print Assumptions C18_init_mirrored_offsets.
+Print Assumptions C18_eight_point_swap_zx.
+Print Assumptions C18_eight_point_swap_xy.
+Print Assumptions C18_node_update_3d_relabel_zx.
+Print Assumptions C18_node_update_3d_relabel_xy.
+Print Assumptions C18_node_update_3d_relabel_cycle.
+Print Assumptions C18_sweep_3d_transpose_zx.
+Print Assumptions C18_sweep_3d_transpose_xy.
+Print Assumptions C18_wrong_axis_clamp_refuted.
